@@ -37,6 +37,10 @@ CONF = dict(
     level_note=('Trusted: Coq kernel, Flocq as float semantics, hand-written model validated by the correspondence run, extraction, harness, synctest. Not proved in Coq: that '
  "Model/Units.v's SystemClock.Drift is within the drift oracle's tolerance of drift x interval (enforced on every observed Drift result instead); rounds in which "
  "a source failed are checked by the oracle for the bound only (the stale values are the model's business) - the exact value is checked by the model comparison."),
+    explanation=('sync.Run hands exactly one correction per round to the clock discipline and clamps each side to impact factor x Drift(SyncInterval) before combining; '
+ 'the proof shows this for every configuration that passes the start-up checks and for every history of source answers (including stale values left in the '
+ 'reused measurement slices), and the check replays thousands of scripted histories through the real Run under virtual time and compares every Do/Sleep/Drift '
+ 'event with the extracted model, evaluating the property oracle on what the implementation did'),
     timeout_quick=600,
     timeout_thorough=3000,
 )
